@@ -437,6 +437,16 @@ def c03(tier):
             pool += other_format_frames(a_, rng) if k % 2 else [x for x in other_format_frames(a_, rng) if x[0] == '8']
         lines = [rng.choice(pool) for _ in range(rng.randrange(8, 30))]
         groups.append([reset(opts, slot=0), reset(opts, slot=1)] + [run1(l, slot=0) for l in lines] + [runn(lines, slot=1, tag={'pair': 'seg3'})])
+    # a consumer of the public table holding read guards while frames arrive: every frame is still applied
+    for k in range(4 if tier == 'quick' else 40):
+        opts = OPTSETS[k % 4]
+        g = [reset(opts)]
+        for a_ in [0x4b7000 + 16 * k + j for j in range(6)]:
+            for l in nine_frames(a_, rng)[:5]:
+                c = run1(l, direct=True)
+                c['contend'] = True
+                g.append(c)
+        groups.append(g)
     conform(rep, 'C03', groups, maxlen=2500)
     # exhaustive AP / AA sweep through the public get_icao, reduced to run-length form
     binary = vlib.build_harness('release')
@@ -1283,7 +1293,10 @@ def c12(tier):
             n = rng.choice([1, 2, 5, 11, 12, 13, 25])
             focus = rng.sample(acs, rng.randrange(1, len(acs) + 1))
             lines = [rng.choice(pools[rng.choice(focus)]) for _ in range(n)]
-            g.append(runn(lines))
+            c_ = runn(lines)
+            if h % 5 == 4:
+                c_['contend'] = True          # a consumer of the table holds read guards while the run goes on
+            g.append(c_)
             Dt = min(D, 700)
             g.append(tick(rng.choice([0, (Dt - 1) * 1000, Dt * 1000 - 100, Dt * 1000, Dt * 1000 + 100, (Dt + 1) * 1000, 2 * Dt * 1000]) or 1))
         if '-i' in opts:
